@@ -407,6 +407,32 @@ func (m *Model) buildMap(named *types.Named, iface string) *MapModel {
 			}
 		}
 	}
+	// bucket types: element type of the first slice field of the table type, plus its embedded struct
+	if obj := p.Xsync.Pkg.Scope().Lookup(mm.TableT); obj != nil {
+		if ts := structOf(obj.Type()); ts != nil {
+			for i := 0; i < ts.NumFields(); i++ {
+				if sl, ok := ts.Field(i).Type().(*types.Slice); ok {
+					if n := namedOf(sl.Elem()); n != "" && structOf(sl.Elem()) != nil {
+						es := structOf(sl.Elem())
+						hasEmb := false
+						for j := 0; j < es.NumFields(); j++ {
+							if es.Field(j).Embedded() {
+								hasEmb = true
+								mm.BucketT = append(mm.BucketT, n, namedOf(es.Field(j).Type()))
+							}
+						}
+						if !hasEmb && len(mm.BucketT) == 0 {
+							// counter stripes have no embedded struct; the bucket slice comes first
+							continue
+						}
+					}
+				}
+			}
+		}
+	}
+	if len(mm.BucketT) == 0 {
+		bad("bucket types not found")
+	}
 	// Copy / Append: callees of Resize (transitively one level) by role
 	if mm.Resize != nil {
 		Instrs(mm.Resize, func(in ssa.Instruction) {
@@ -418,7 +444,17 @@ func (m *Model) buildMap(named *types.Named, iface string) *MapModel {
 			if cal == nil || cal.Pkg != p.Xsync || cal == mm.NewTable || cal == mm.Wait {
 				return
 			}
-			if m.acquiresBucketLock(cal) {
+			hasBucket, hasTable := false, false
+			for _, prm := range cal.Params {
+				n := namedOf(prm.Type())
+				if contains(mm.BucketT, n) {
+					hasBucket = true
+				}
+				if n == mm.TableT {
+					hasTable = true
+				}
+			}
+			if (hasBucket && hasTable) || (mm.Copy == nil && m.acquiresBucketLock(cal)) {
 				mm.Copy = cal
 			}
 		})
@@ -454,32 +490,6 @@ func (m *Model) buildMap(named *types.Named, iface string) *MapModel {
 		if f == nil {
 			bad("helper with role %s not found", n)
 		}
-	}
-	// bucket types: element type of the first slice field of the table type, plus its embedded struct
-	if obj := p.Xsync.Pkg.Scope().Lookup(mm.TableT); obj != nil {
-		if ts := structOf(obj.Type()); ts != nil {
-			for i := 0; i < ts.NumFields(); i++ {
-				if sl, ok := ts.Field(i).Type().(*types.Slice); ok {
-					if n := namedOf(sl.Elem()); n != "" && structOf(sl.Elem()) != nil {
-						es := structOf(sl.Elem())
-						hasEmb := false
-						for j := 0; j < es.NumFields(); j++ {
-							if es.Field(j).Embedded() {
-								hasEmb = true
-								mm.BucketT = append(mm.BucketT, n, namedOf(es.Field(j).Type()))
-							}
-						}
-						if !hasEmb && len(mm.BucketT) == 0 {
-							// counter stripes have no embedded struct; the bucket slice comes first
-							continue
-						}
-					}
-				}
-			}
-		}
-	}
-	if len(mm.BucketT) == 0 {
-		bad("bucket types not found")
 	}
 	mm.LockKind = "mutex"
 	if mm.Core != nil {
